@@ -3,7 +3,7 @@ import numpy as rnp
 import z3
 
 from symx import ctx
-from symx.proxy import SR
+from symx.proxy import SR, plain
 from symx.shim import NumpyShim, clone, clone_module, oarr, SymNd
 from . import result as R
 
@@ -12,7 +12,7 @@ META = {
     "bounds": {"quick": "polynomial_detrend: symbolic series of n<=6 samples, orders 0..3 (and the short-input fallback); RMS: frequency grids of <=5 symbolic strictly increasing points, symbolic non-negative ASD values, symbolic band edges, every membership pattern by forking; additivity at every interior grid point, nesting with symbolic inner/outer bands; get_rms and df_detrend wiring",
                "thorough": "n<=8, orders 0..5"},
     "outside": ["Parseval agreement with the time-domain RMS of broadband data (statistical clause)", "least-squares conditioning of np.polyfit in binary64"],
-    "stubs": ["np.polyfit -> coefficients constrained by the normal equations on the concrete abscissae 0..n-1 (least-squares contract); np.polyval -> Horner", "scipy cumulative_trapezoid: the library's own code running on object arrays", "integral_rms/polynomial_detrend -> recorders when their callers are the subject"],
+    "stubs": ["np.polyfit -> coefficients constrained by the normal equations on the concrete abscissae 0..n-1 (least-squares contract); np.polyval -> Horner; np.linalg.lstsq -> coefficients constrained by the normal equations", "scipy cumulative_trapezoid: the library's own code running on object arrays", "integral_rms/polynomial_detrend -> recorders when their callers are the subject"],
     "assumptions": ["ASD values >= 0 and frequencies strictly increasing (what a SpectrumResult holds)"],
 }
 
@@ -37,6 +37,22 @@ def polyfit_stub(t, x, deg):
     return oarr([SR(v) for v in c])
 
 
+def lstsq_stub(A, b, rcond=None):
+    """np.linalg.lstsq by its least-squares contract: the returned coefficients satisfy the normal equations A^T A c = A^T b"""
+    run = ctx.cur()
+    from symx.proxy import toreal, tz
+    A = rnp.asarray(A, dtype=object)
+    n, m = A.shape
+    c = [ctx.fresh("lstsq_c") for _ in range(m)]
+    bs = [toreal(tz(plain(v))) for v in b]
+    At = [[toreal(tz(plain(A[k, i]))) for k in range(n)] for i in range(m)]
+    for i in range(m):
+        lhs = sum(c[j] * sum(At[i][k] * At[j][k] for k in range(n)) for j in range(m))
+        rhs = sum(bs[k] * At[i][k] for k in range(n))
+        run.side.append(lhs == rhs)
+    return oarr([SR(v) for v in c]), oarr([]), m, None
+
+
 def polyval_stub(c, t):
     out = []
     for tt in t:
@@ -50,7 +66,7 @@ def polyval_stub(c, t):
 def _detrend(W, x, order):
     import speckit.dsp as D
     if W.sym:
-        f = clone_module(D, dict(np=NumpyShim(polyfit=polyfit_stub, polyval=polyval_stub)))["polynomial_detrend"]
+        f = clone_module(D, dict(np=NumpyShim(polyfit=polyfit_stub, polyval=polyval_stub, linalg_lstsq=lstsq_stub)))["polynomial_detrend"]
         return f(x, order)
     return D.polynomial_detrend(rnp.asarray(x, dtype=float), order)
 
